@@ -679,7 +679,23 @@ Proof.
     rewrite <- Hl at 1. rewrite unwind_id. exact HL. }
   destruct (maxc (cf s) <? calls s1).
   - apply Hrev; [rewrite J1; simpl; unfold n; lia | exact Hlim | exact HW1].
-  - set (sF := commit_cache s1).
+  - destruct (flush_fail s1) as [af|].
+    { (* the pre-run flush fails: its prefix is undone by the journal entry *)
+      set (sP := commit_cache_partial af s1).
+      assert (Hrep1 : repaired (cf s1) = true) by (unfold s1; rewrite snapshot_cf; exact Hrep).
+      assert (Hkeep : forall x o, objs s1 x = Some o -> objs sP x = Some o).
+      { intros x o Ho. unfold sP, commit_cache_partial. sdb_simp.
+        destruct (x <? af); [apply flush_objs_keep; assumption | exact Ho]. }
+      assert (HWP : WFJ sP).
+      { eapply WFJ_ext; [exact HW1 | reflexivity | reflexivity |].
+        intros x Hx. destruct (objs s1 x) as [o|] eqn:Ho; [|contradiction]. rewrite (Hkeep x o Ho). discriminate. }
+      apply Hrev; [change (journal sP) with (journal s1); rewrite J1; simpl; unfold n; lia | | exact HWP].
+      apply (Hcore sP sP []); [exact J1 | | | | | reflexivity | apply rel_refl].
+      - change (txs sP) with (txs s1). apply snapshot_txs.
+      - change (cf sP) with (cf s1). apply snapshot_cf.
+      - change (aux sP) with (aux s1). unfold s1. rewrite snapshot_aux. apply auxeq_refl.
+      - intros x o Ho. apply Hkeep. unfold s1. rewrite snapshot_objs. exact Ho. }
+    set (sF := commit_cache s1).
     assert (HWF : WFJ sF) by (apply WFJ_commit_cache; exact HW1).
     assert (HDF : domsub (snap_sc s) sF).
     { intros a Ha. destruct HWF as (W&_). eapply W; [|exact Ha].
